@@ -297,6 +297,10 @@ pub struct LResp {
     /// `Local::now()`: (its Unix timestamp, the offset it carries, the offset the instant route gives for it)
     #[serde(default)]
     pub now: Option<(i64, i32, i32)>,
+    /// the deprecated `Local::today()`: Some(false) when it is not the local date of `Local::now()`
+    /// (judged only when the date did not change between two readings of the clock)
+    #[serde(default)]
+    pub today_ok: Option<bool>,
 }
 
 #[allow(deprecated)]
@@ -308,10 +312,14 @@ pub fn child(req_json: &str) -> i32 {
     };
     let g = |f: &mut dyn FnMut() -> i32| -> Result<i32, String> { crate::guard::guard(|| f()) };
     let mlt = |r: MappedLocalTime<i32>| match r { MappedLocalTime::None => vec![], MappedLocalTime::Single(a) => vec![a], MappedLocalTime::Ambiguous(a, b) => vec![a, b] };
-    let mut resp = LResp { inst: vec![], wall: vec![], now: None };
+    let mut resp = LResp { inst: vec![], wall: vec![], now: None, today_ok: None };
     if req.now {
         let n = Local::now();
         resp.now = Some((n.timestamp(), n.offset().fix().local_minus_utc(), Local.offset_from_utc_datetime(&n.naive_utc()).fix().local_minus_utc()));
+        let before = Local::now().date_naive();
+        let today = Local::today().naive_local();
+        let after = Local::now().date_naive();
+        if before == after { resp.today_ok = Some(today == before); }
     }
     for &u in &req.inst {
         let mut rs: Vec<(String, Result<i32, String>)> = vec![];
@@ -470,6 +478,7 @@ impl SubCheck for LocalRoutes {
         if want_now {
             obs.nt("local_now_near_a_transition");
             let (ts, carried, by_instant) = resp.now.ok_or("harness: child did not report Local::now()")?;
+            ensure!(resp.today_ok != Some(false), "Local::today() is not the date Local::now() shows in the zone (zone offset {} at instant {ts})", m.offset_at(ts));
             ensure!(carried == m.offset_at(ts) && by_instant == carried, "Local::now() at instant {ts} carries offset {carried}; the instant route gives {by_instant}, the zone data prescribe {}", m.offset_at(ts));
         }
         for (u, routes) in inst.iter().zip(&resp.inst) {
